@@ -6,6 +6,7 @@
    root query for complete-range beacons. *)
 From Coq Require Import Lia.
 From MV Require Import Base.Prelude Base.SymHash Gen.Consts C13.Model C13.Spec C13.Proofs.
+From MV Require Import C13.SpecHistory C13.ProofsHistory4 C13.ProofsHistory6 C13.ProofsHistory7 C13.ProofsHistory9 C13.ProofsHistoryCheck.
 Open Scope N_scope.
 
 (* C13_inv, forward step: a batch that extends the stored blocks as one chain is stored exactly
@@ -85,3 +86,225 @@ Example C13_ex_converge :
   = scratch 4 (map (fun n => B (N.of_nat n) (N.of_nat n * 2 + 1) (N.of_nat n + 1) [N.of_nat n + 100]) (seq 0 15)
                ++ [B 15 40 90 [115]; B 16 41 91 []; B 17 44 92 [116]; B 18 47 93 []; B 19 48 94 []; B 20 50 95 []; B 21 52 96 []]) 21.
 Proof. vm_compute. reflexivity. Qed.
+
+(* ================================================================================== *)
+(* Whole-history convergence (predicates in SpecHistory.v, proofs in ProofsHistory*.v).
+
+   C13_converge (full statement, PROVED below as [C13_converge] / [C13_root_fn_converge]):
+   for every initial canonical chain c0, every history h (EMut / EImport with `during` mutations /
+   ERestart / EDisconnect, any lengths, any max_roll_forwards_per_poll) over well-formed chains
+   [hist_ok] and every final `EImport t []` such that the run stays outside the known classes —
+     deep roll-back:    no roll-back without anchor                         w_deep w = false
+     stale up-to-date:  the final import polls                              polls .. t  (or w_stale w = false)
+     echo roll-back:    no fork switch during an import cuts the chain at
+                        the slot the stream started from                    [echo_free] in [run_ok]
+     partial beacon:    roots queried at beacons that end a block range     (LENGTH | b + 1)
+   and every import target is at or below the canonical tip of its time ([targets_during] in
+   [run_ok]; the harness does not judge histories with a target beyond the tip either) —
+   EVERY IMPORT SUCCEEDS (a conclusion, not a hypothesis: in particular the fuel [fuel_of] of the
+   model's loop never runs out), the final store IS `scratch max c t` (blocks, transactions, new and
+   legacy block-range roots), and the signed root at every complete-range beacon b <= t is the one
+   a node imported from scratch exactly to b signs.
+
+   and outside the fifth known class found while proving it,
+     origin roll-back / slot 0: no stored block has slot number 0           `0 < slot` in [wf_chain] ([hist_ok])
+   (C13-origin-rollback-slot0: a roll-back to the origin is a roll-back to slot 0 and keeps a block
+   stored at slot 0; Refuted.v C13_hyp_needed_slot_positive, harness flavour `origin-slot0`).
+   Hypotheses the proof forces beyond chain_ok (Refuted.v shows the first two are necessary:
+   C13_hyp_needed_*; the random harness flavours respect all three — props/C13.json):
+     - wf_chain: every block has slot > 0 (the fifth class above) and block numbers are consecutive
+       along a chain (a chain invariant of Cardano; a gap lets the importer consume-and-drop a block
+       above the target that the server never re-sends after Await);
+     - muts_ok: the blocks a fork brings carry hashes never seen on an earlier chain (hash-chain
+       integrity; fork flapping A->B->A is thereby excluded although the model handles it).
+   The *_quiet theorems are the special case without mutations during imports (no echo hypothesis,
+   and for the block table no target hypothesis). *)
+
+(* C13_converge, blocks and transactions, quiet histories with restarts and disconnections *)
+Theorem C13_converge_blocks_quiet : forall max c0 h t,
+  hist_ok c0 h -> Forall quiet h ->
+  let w0 := run_history max c0 h in
+  let w := run_history max c0 (h ++ [EImport t []]) in
+  let C := chain (w_srv w) in
+  let bs := blocks (n_store (w_node w)) in
+  w_deep w = false ->
+  Forall (eq true) (w_oks w) /\ wf_chain C /\
+  (polls (n_store (w_node w0)) t -> bs = filter (fun b => num b <=? t) C /\ bs = blocks (scratch max C t)) /\
+  (w_stale w = false ->
+     (exists k, bs = firstn k C) /\ filter (fun b => num b <=? t) bs = filter (fun b => num b <=? t) C).
+Proof. exact converge_blocks. Qed.
+
+(* the coupling invariant between node and chain-sync server holds after every quiet history
+   that stays outside the deep-roll-back class *)
+Theorem C13_coupling_invariant : forall max c0 h,
+  hist_ok c0 h -> Forall quiet h -> w_deep (run_history max c0 h) = false ->
+  exists seen, WInv seen (run_history max c0 h) /\ Forall (eq true) (w_oks (run_history max c0 h)).
+Proof. exact coupling_invariant. Qed.
+
+(* a from-scratch import of a well-formed chain holds exactly its blocks up to the target *)
+Theorem C13_scratch_blocks : forall max c t,
+  wf_chain c -> blocks (scratch max c t) = filter (fun b => num b <=? t) c.
+Proof. exact scratch_blocks. Qed.
+
+(* non-vacuity: a history with a fork switch that rolls back two stored blocks, a disconnection,
+   an up-to-date import and a restart satisfies the hypotheses *)
+Definition ex_c0 : list block :=
+  [B 7 5 1 [10]; B 8 9 2 []; B 9 17 3 [11; 12]; B 10 20 4 [13]; B 11 22 5 []; B 12 30 6 [14]].
+Definition ex_fork : list block := [B 9 18 7 [12]; B 10 21 8 [13; 11]; B 11 25 9 []; B 12 26 10 [15]].
+Definition ex_h : list event :=
+  [EImport 10 []; EMut (Switch 2 ex_fork); EImport 11 []; EDisconnect; EImport 9 []; ERestart].
+
+Ltac consec_tac := intros i a b Ha Hb;
+  do 8 (destruct i as [|i]; [cbn in Ha, Hb; try discriminate; injection Ha as <-; injection Hb as <-; reflexivity|]);
+  destruct i; discriminate.
+Ltac chain_ok_tac := unfold chain_ok, ext_ok, fresh_for; cbn;
+  repeat split; repeat constructor; cbn; try lia; try discriminate; intuition (try discriminate; try lia).
+
+Example C13_ex_hist_ok : hist_ok ex_c0 ex_h /\ Forall quiet ex_h.
+Proof.
+  split; [split; [split; [chain_ok_tac | split; [consec_tac | repeat constructor]]|] | repeat constructor].
+  cbn [flat_map muts_of_event ex_h app muts_ok]. split; [|split; [|exact I]].
+  - cbn. split; [chain_ok_tac | split; [consec_tac | repeat constructor]].
+  - intros b Hb. cbn in Hb. cbn. intuition (subst; cbn in *; try discriminate; try lia).
+Qed.
+(* ... the second import genuinely rolls back two stored blocks (hashes 3, 4), no roll-back misses
+   its anchor, and the final import polls *)
+Example C13_ex_hist_run :
+  map bh (blocks (n_store (w_node (run_history 4 ex_c0 [EImport 10 []])))) = [1; 2; 3; 4] /\
+  map bh (blocks (n_store (w_node (run_history 4 ex_c0 (ex_h ++ [EImport 12 []]))))) = [1; 2; 7; 8; 9; 10] /\
+  w_deep (run_history 4 ex_c0 (ex_h ++ [EImport 12 []])) = false /\
+  polls (n_store (w_node (run_history 4 ex_c0 ex_h))) 12.
+Proof. vm_compute. repeat split; reflexivity. Qed.
+
+(* C13_converge, whole store (blocks, transactions, new and legacy block-range roots), quiet
+   histories with restarts and disconnections, every import target at or below the canonical tip
+   of its time ([targets_ok]; a target beyond the tip makes the importer store the root of a range
+   the chain has not filled yet — the harness does not judge such histories either): after a final
+   import that polls, the store IS the store of a node that imported the final canonical chain
+   once from scratch *)
+Theorem C13_converge_store_quiet : forall max c0 h t,
+  hist_ok c0 h -> Forall quiet h -> targets_ok max (world0 c0) h ->
+  let w0 := run_history max c0 h in
+  let w := run_history max c0 (h ++ [EImport t []]) in
+  w_deep w = false -> polls (n_store (w_node w0)) t ->
+  n_store (w_node w) = scratch max (chain (w_srv w)) t.
+Proof. exact converge_store. Qed.
+
+(* ... and that store is an explicit function of (canonical chain, target) *)
+Theorem C13_scratch_store : forall max c t, wf_chain c -> scratch max c t = store_of c t.
+Proof. exact scratch_store. Qed.
+
+(* the roots invariant: after every quiet history outside the deep-roll-back class, with targets at
+   or below the tip, both root tables are [roots_fn] of the store's own block table (no stale root
+   survives a roll-back, whatever up-to-date imports computed on a stale table in between) *)
+Theorem C13_roots_invariant : forall max c0 h,
+  hist_ok c0 h -> Forall quiet h -> targets_ok max (world0 c0) h -> w_deep (run_history max c0 h) = false ->
+  RI (n_store (w_node (run_history max c0 h))).
+Proof. exact roots_invariant. Qed.
+
+Example C13_ex_targets_ok : targets_ok 4 (world0 ex_c0) ex_h.
+Proof. vm_compute. repeat split; discriminate. Qed.
+
+(* C13_root_fn along a history, outside the partial-beacon class: at every beacon b <= t that ends
+   a block range the node signs exactly what a node that imported the final canonical chain from
+   scratch exactly to b signs — new and legacy retriever *)
+Theorem C13_root_fn_converge_quiet : forall max c0 h t b,
+  hist_ok c0 h -> Forall quiet h -> targets_ok max (world0 c0) h ->
+  let w0 := run_history max c0 h in
+  let w := run_history max c0 (h ++ [EImport t []]) in
+  w_deep w = false -> polls (n_store (w_node w0)) t ->
+  (LENGTH | b + 1) -> b <= t ->
+  signable_root (n_store (w_node w)) b = signable_root (scratch max (chain (w_srv w)) b) b /\
+  signable_root_legacy (n_store (w_node w)) b = signable_root_legacy (scratch max (chain (w_srv w)) b) b.
+Proof. exact converge_signable. Qed.
+
+(* the signed root at a complete-range beacon is a function of (chain, beacon): any two targets *)
+Theorem C13_root_fn_store_of : forall c t b,
+  (LENGTH | b + 1) -> b <= t ->
+  signable_root (store_of c t) b = signable_root (store_of c b) b /\
+  signable_root_legacy (store_of c t) b = signable_root_legacy (store_of c b) b.
+Proof. exact signable_store_of. Qed.
+
+(* ================================================================================== *)
+(* C13_converge: any history outside the known classes (see the header above).
+   Third conjunct: the final import polls -> the store is `scratch max C t`.
+   Fourth conjunct: the final import may return "up to date" as long as the store is not stale ->
+   the store is the from-scratch store for max(t, highest stored block number) — exactly what the
+   harness oracle compares with (t_eff) — and its blocks numbered <= t are those of the chain.
+   Fifth: between events the root tables are those of the ranges at or below the highest stored block. *)
+Theorem C13_converge : forall max c0 h t,
+  hist_ok c0 h -> run_ok max (world0 c0) h ->
+  let w0 := run_history max c0 h in
+  let w := run_history max c0 (h ++ [EImport t []]) in
+  let C := chain (w_srv w) in
+  let bs := blocks (n_store (w_node w)) in
+  w_deep w = false ->
+  Forall (eq true) (w_oks w) /\ wf_chain C /\
+  (polls (n_store (w_node w0)) t -> n_store (w_node w) = scratch max C t /\ bs = filter (fun b => num b <=? t) C) /\
+  (w_stale w = false ->
+     n_store (w_node w) = scratch max C (N.max t (top_of bs)) /\
+     (exists k, bs = firstn k C) /\ filter (fun b => num b <=? t) bs = filter (fun b => num b <=? t) C) /\
+  pinned (n_store (w_node w0)).
+Proof. exact converge_full. Qed.
+
+(* C13_root_fn: the signed roots (new and legacy retriever) at a complete-range beacon *)
+Theorem C13_root_fn_converge : forall max c0 h t b,
+  hist_ok c0 h -> run_ok max (world0 c0) h ->
+  let w0 := run_history max c0 h in
+  let w := run_history max c0 (h ++ [EImport t []]) in
+  w_deep w = false -> polls (n_store (w_node w0)) t ->
+  (LENGTH | b + 1) -> b <= t ->
+  signable_root (n_store (w_node w)) b = signable_root (scratch max (chain (w_srv w)) b) b /\
+  signable_root_legacy (n_store (w_node w)) b = signable_root_legacy (scratch max (chain (w_srv w)) b) b.
+Proof. exact converge_full_signable. Qed.
+
+(* non-vacuity: a fork switch in the middle of an import.  The second import resumes at block 9,
+   reads the echo and blocks 10, 11 (hashes 4, 5: in the streamer's buffer when max = 4, in the table
+   when max = 1); at the fourth read the chain switches at block 10: the roll-back truncates the buffer
+   (max = 4) / deletes block 11 from the table (max = 1), then the fork is imported *)
+Definition ex_fork2 : list block := [B 11 23 11 [14]; B 12 24 12 []; B 13 31 13 [16]].
+Definition ex_h2 : list event := [EImport 9 []; EImport 12 [(3%nat, Switch 4 ex_fork2)]; ERestart].
+Example C13_ex_hist2_ok : hist_ok ex_c0 ex_h2.
+Proof.
+  split; [split; [chain_ok_tac | split; [consec_tac | repeat constructor]]|].
+  cbn [flat_map muts_of_event ex_h2 app muts_ok map snd]. split; [|split; [|exact I]].
+  - cbn. split; [chain_ok_tac | split; [consec_tac | repeat constructor]].
+  - intros b Hb. cbn in Hb. cbn. intuition (subst; cbn in *; try discriminate; try lia).
+Qed.
+Example C13_ex_hist2_run_ok : run_ok 4 (world0 ex_c0) ex_h2 /\ run_ok 1 (world0 ex_c0) ex_h2.
+Proof. vm_compute. repeat split; try discriminate; intro; discriminate. Qed.
+Example C13_ex_hist2_run :
+  (let w := run_history 4 ex_c0 (ex_h2 ++ [EImport 13 []]) in
+   w_deep w = false /\ map bh (blocks (n_store (w_node w))) = [1; 2; 3; 4; 11; 12; 13]) /\
+  (let w := run_history 1 ex_c0 (ex_h2 ++ [EImport 13 []]) in
+   w_deep w = false /\ map bh (blocks (n_store (w_node w))) = [1; 2; 3; 4; 11; 12; 13]) /\
+  polls (n_store (w_node (run_history 4 ex_c0 ex_h2))) 13 /\ polls (n_store (w_node (run_history 1 ex_c0 ex_h2))) 13.
+Proof. vm_compute. repeat split; reflexivity. Qed.
+(* the quiet example history also satisfies [run_ok] *)
+Example C13_ex_run_ok : run_ok 4 (world0 ex_c0) ex_h.
+Proof. vm_compute. repeat split; try discriminate; intro; discriminate. Qed.
+
+(* non-vacuity with block-range roots: 50 blocks; import to 33 stores the roots of ranges 0-14 and
+   15-29; a fork switch at block 28 kills stored blocks 28..33 and makes the stored root of range
+   15-29 stale; a stale up-to-date import; the next import rolls back to block 27 (the stale root is
+   deleted), imports the fork, and after 15 reads the chain switches again at block 40 under it
+   (roll-back in the repository, buffer dropped); disconnection, restart.  Hypotheses are discharged
+   by the boolean checkers of ProofsHistoryCheck.v. *)
+Definition mkb (tag : N) (n : nat) : block :=
+  B (N.of_nat n) (N.of_nat n * 10 + 5) (tag * 1000 + N.of_nat n + 1) [tag * 100000 + N.of_nat n].
+Definition big_c0 : list block := map (mkb 1) (seq 0 50).
+Definition big_h : list event :=
+  [EImport 33 []; EMut (Switch 28 (map (mkb 2) (seq 28 30))); EImport 20 [];
+   EImport 47 [(15%nat, Switch 40 (map (mkb 3) (seq 40 20)))]; EDisconnect; ERestart].
+Example C13_ex_big_ok : hist_ok big_c0 big_h /\ run_ok 4 (world0 big_c0) big_h /\ run_ok 1 (world0 big_c0) big_h.
+Proof.
+  split; [apply hist_okb_sound; vm_compute; reflexivity|].
+  split; apply run_okb_sound; vm_compute; reflexivity.
+Qed.
+Example C13_ex_big_run :
+  map fst (roots (n_store (w_node (run_history 4 big_c0 [EImport 33 []])))) = [0; 15] /\
+  (let w := run_history 4 big_c0 (big_h ++ [EImport 50 []]) in
+   w_deep w = false /\ map fst (roots (n_store (w_node w))) = [0; 15; 30] /\ map fst (lroots (n_store (w_node w))) = [0; 15; 30] /\
+   map bh (firstn 3 (skipn 27 (blocks (n_store (w_node w))))) = [1028; 2029; 2030]) /\
+  polls (n_store (w_node (run_history 4 big_c0 big_h))) 50.
+Proof. vm_compute. repeat split; reflexivity. Qed.
